@@ -179,7 +179,7 @@ bounded('c12_pipeline', S_D, PIPE, 6, 8, unwindset=utf8loops, unwind_extra=2, ex
         assumes=A_CFG + A_SYMMAP + A_NOCONV, flags_del=NOCONV, solver=CAD,
         sub="real pipeline decode ; UTF-8 ; normalise (order of htp_normalize_parsed_uri), whole configuration symbolic: len' <= len, no dot segment, "
             "unchanged by normalising again, flags only grow")
-bounded('c12_ref_pipeline', S_D, PIPE, 5, 7, unwindset=utf8loops, unwind_extra=2, extra_defs=dict(PATHCTX, C12_PIPE_EQ=1),
+bounded('c12_ref_pipeline', S_D, PIPE, None, 4, unwindset=utf8loops, unwind_extra=2, extra_defs=dict(PATHCTX, C12_PIPE_EQ=1),
         assumes=A_CFG + A_SYMMAP + A_NOCONV, flags_del=NOCONV, solver=CAD,
         sub='real pipeline == reference pipeline end to end (bytes, length, indicator set, status); the stage-wise units carry the same claim at larger bounds')
 
